@@ -234,6 +234,16 @@ func (fx *FX) enterLoop(fr *frame, li *loopInfo, b *ssa.BasicBlock, ins []*State
 	for _, ai := range autoInv {
 		fx.assume(st.reach, ai(fr))
 	}
+	// string range loops: the hidden iterator stays within the string (pos starts at 0 and advances
+	// by utf8_w, which never exceeds the remaining length)
+	for _, ins := range b.Instrs {
+		if nx, ok := ins.(*ssa.Next); ok && nx.IsString && fx.hasUTF8() {
+			if sv, ok := fr.vals[nx.Iter]; ok {
+				pos := withSign(fx.comp(st, fx.iterName(fr, nx.Iter), SBV64), true)
+				fx.assume(st.reach, And(Ge(pos, withSign(BVLit(0, 64), true)), Le(pos, strLen(sv.T))))
+			}
+		}
+	}
 	lc.frameKeys = fx.frameKeys(log)
 	for _, k := range lc.frameKeys {
 		fx.assume(st.reach, fx.frameFact(st, k))
@@ -406,6 +416,13 @@ func (fx *FX) addLoopNames(fr *frame, env *Env, b *ssa.BasicBlock) {
 		}
 		if phi.Comment != "" {
 			env.names[phi.Comment] = v
+		}
+	}
+	// "$pos": byte offset of the rune a string range loop is about to decode
+	for _, instr := range b.Instrs {
+		if nx, ok := instr.(*ssa.Next); ok && nx.IsString && fx.hasUTF8() && env.st != nil {
+			pos := withSign(fx.comp(env.st, fx.iterName(fr, nx.Iter), SBV64), true)
+			env.names["$pos"] = Val{T: pos, Typ: types.Typ[types.Int]}
 		}
 	}
 }
